@@ -11,7 +11,7 @@
    tuple-to-userset one edge per distinct parent type labelled "type#tupleset", a computed userset a
    computed/rewrite edge by the kinds of its end points; no other list is touched.  The implementation's graph is
    compared with [wbuild] and, independently, decoded against the model (run/lib/graphspec.check_structure). *)
-From Verif Require Import Base.Str Base.Outcome Model.Ast Model.Printer Model.WGraph Spec.GraphWeights Proofs.WGraphProofs Proofs.BuilderFresh Spec.GraphShape Proofs.BuilderShape Proofs.ShapeLists Proofs.Witnesses Proofs.BuilderValid.
+From Verif Require Import Base.Str Base.Outcome Model.Ast Model.Printer Model.WGraph Spec.GraphWeights Proofs.WGraphProofs Proofs.BuilderFresh Spec.GraphShape Proofs.BuilderShape Proofs.ShapeLists Proofs.Witnesses Proofs.BuilderValid Proofs.BuilderNodes.
 
 (* 1. a type, relation, referenced userset or wildcard never gets two nodes *)
 Theorem C10_one_node_per_label : forall m g, wbuild m = Ok g -> NoDup (map n_id (g_nodes g)).
@@ -123,3 +123,15 @@ Qed.
 (* 11. which models have a graph at all ("for every accepted model"): those without a dangling tuple-to-userset *)
 Theorem C10_builder_accepts_iff_references_resolve : forall m, is_ok (wbuild m) = model_valid m.
 Proof. exact wbuild_ok_iff_valid. Qed.
+
+(* 12. THE NODE INVENTORY, for every model the builder takes (no hypothesis): the nodes are the ones the model names
+       — every type, every defined relation, every target of a type restriction of a direct assignment, every
+       computed userset, every parent relation of a tuple-to-userset — and operator nodes numbered below the
+       operator count; each of these is there; one operator node exists for every number below the count; no id
+       occurs twice.  (With 2: the count is the number of operator occurrences.) *)
+Theorem C10_node_inventory : forall m g, wbuild m = Ok g ->
+  (forall n, In n (g_nodes g) -> In (n_id n) (exact_ids m) \/ is_opnode (g_ops g) (n_id n)) /\
+  (forall id, In id (exact_ids m) -> find_node id (g_nodes g) <> None) /\
+  (forall j, j < g_ops g -> exists op, In op op_names /\ find_node (op_id op j) (g_nodes g) <> None) /\
+  NoDup (map n_id (g_nodes g)).
+Proof. exact wbuild_nodes. Qed.
